@@ -14,10 +14,23 @@
 (* AsWas = TRUE is the pinned code: Begin writes errLang, Parse reads it,  *)
 (* draws are unsynchronised.  AsWas = FALSE is the repaired design: the    *)
 (* language travels with the parser, draws are serialised by a lock.       *)
+(*                                                                         *)
+(* Lazily compiled code.  A die without sides evaluates the configured     *)
+(* default-sides expression; its text is compiled on first use, under the  *)
+(* flags of the VM that uses it, and the compiled object is kept in that   *)
+(* VM's own configuration:                                                 *)
+(*   LazyPrivate(i)  compile under flag[i], keep in pcache[i]              *)
+(* SharedCache = TRUE is the design the code does NOT have (one compiled   *)
+(* object per expression text for the whole process): look-up, then        *)
+(* compile and store are two steps, and a VM runs whatever it finds:       *)
+(*   LazyLookup(i), LazyStore(i)                                           *)
+(* It exists so that TLC shows what Isolation and NoRace forbid there.     *)
 (***************************************************************************)
 EXTENDS Naturals, Sequences, FiniteSets, TLC
 
-CONSTANTS N, AsWas, Langs
+CONSTANTS N, AsWas, Langs,
+          SharedCache,   \* the rejected design: one process-wide cache of lazily compiled code
+          LazySet        \* values lazy[i] may take (the schedules written for replay use {FALSE}: there is no gate at the compile step)
 
 VM == 1..N
 
@@ -29,8 +42,14 @@ VARIABLES pc,        \* per VM: "idle" | "begun" | "parsed" | "drawing" | "drawn
           rng,       \* the global generator's state (a counter)
           held,      \* per VM: the state it read and has not yet written back
           draws,     \* per VM: the value it drew
-          order      \* the schedule: VM ids in the order of their steps
-vars == <<pc, lang, unseeded, errLang, usedLang, rng, held, draws, order>>
+          order,     \* the schedule: VM ids in the order of their steps
+          flag,      \* per VM: a parse-time flag of its configuration ("on" | "off"), e.g. DisableBitwiseOp
+          lazy,      \* per VM: whether its evaluation rolls a die without sides
+          pcache,    \* per VM: the flag its privately cached default-sides code was compiled under ("none" before)
+          gcache,    \* the process-wide cache (used only with SharedCache)
+          ranUnder   \* per VM: the flag the default-sides code it executed was compiled under
+lvars == <<flag, lazy, pcache, gcache, ranUnder>>
+vars == <<pc, lang, unseeded, errLang, usedLang, rng, held, draws, order, flag, lazy, pcache, gcache, ranUnder>>
 
 Init == /\ pc = [i \in VM |-> "idle"]
         /\ lang \in [VM -> Langs]
@@ -39,44 +58,62 @@ Init == /\ pc = [i \in VM |-> "idle"]
         /\ usedLang = [i \in VM |-> "none"]
         /\ rng = 0 /\ held = [i \in VM |-> 0] /\ draws = [i \in VM |-> 0]
         /\ order = <<>>
+        /\ flag \in [VM -> {"on", "off"}] /\ lazy \in [VM -> LazySet]
+        /\ pcache = [i \in VM |-> "none"] /\ gcache = "none" /\ ranUnder = [i \in VM |-> "none"]
 
 Sched(i) == order' = Append(order, i)
 
 Begin(i) == /\ pc[i] = "idle"
             /\ pc' = [pc EXCEPT ![i] = "begun"]
             /\ errLang' = IF AsWas THEN lang[i] ELSE errLang
-            /\ Sched(i) /\ UNCHANGED <<lang, unseeded, usedLang, rng, held, draws>>
+            /\ Sched(i) /\ UNCHANGED <<lang, unseeded, usedLang, rng, held, draws, lvars>>
 Parse(i) == /\ pc[i] = "begun"
             /\ pc' = [pc EXCEPT ![i] = "parsed"]
             /\ usedLang' = [usedLang EXCEPT ![i] = IF AsWas THEN errLang ELSE lang[i]]
-            /\ Sched(i) /\ UNCHANGED <<lang, unseeded, errLang, rng, held, draws>>
+            /\ Sched(i) /\ UNCHANGED <<lang, unseeded, errLang, rng, held, draws, lvars>>
+\* the default-sides code: compiled on first use
+Compiled(i) == lazy[i] => ranUnder[i] # "none"
+Rest == <<lang, unseeded, errLang, usedLang, rng, held, draws, flag, lazy>>
+LazyPrivate(i) == /\ pc[i] = "parsed" /\ lazy[i] /\ ~SharedCache /\ ranUnder[i] = "none"
+                  /\ pcache' = [pcache EXCEPT ![i] = flag[i]] /\ ranUnder' = [ranUnder EXCEPT ![i] = flag[i]]
+                  /\ Sched(i) /\ UNCHANGED <<pc, gcache, Rest>>
+LazyLookup(i) == /\ pc[i] = "parsed" /\ lazy[i] /\ SharedCache /\ ranUnder[i] = "none"
+                 /\ IF gcache = "none" THEN pc' = [pc EXCEPT ![i] = "compiling"] /\ UNCHANGED ranUnder
+                                       ELSE ranUnder' = [ranUnder EXCEPT ![i] = gcache] /\ UNCHANGED pc
+                 /\ Sched(i) /\ UNCHANGED <<pcache, gcache, Rest>>
+LazyStore(i) == /\ pc[i] = "compiling"
+                /\ gcache' = flag[i] /\ ranUnder' = [ranUnder EXCEPT ![i] = flag[i]]
+                /\ pc' = [pc EXCEPT ![i] = "parsed"]
+                /\ Sched(i) /\ UNCHANGED <<pcache, Rest>>
 \* a draw: unsynchronised read ... write (AsWas), or one step under the lock
-DrawRead(i) == /\ pc[i] = "parsed" /\ unseeded[i] /\ AsWas
+DrawRead(i) == /\ pc[i] = "parsed" /\ unseeded[i] /\ AsWas /\ Compiled(i)
                /\ pc' = [pc EXCEPT ![i] = "drawing"]
                /\ held' = [held EXCEPT ![i] = rng]
-               /\ Sched(i) /\ UNCHANGED <<lang, unseeded, errLang, usedLang, rng, draws>>
+               /\ Sched(i) /\ UNCHANGED <<lang, unseeded, errLang, usedLang, rng, draws, lvars>>
 DrawWrite(i) == /\ pc[i] = "drawing"
                 /\ pc' = [pc EXCEPT ![i] = "drawn"]
                 /\ rng' = held[i] + 1 /\ draws' = [draws EXCEPT ![i] = held[i] + 1]
-                /\ Sched(i) /\ UNCHANGED <<lang, unseeded, errLang, usedLang, held>>
-DrawLocked(i) == /\ pc[i] = "parsed" /\ unseeded[i] /\ ~AsWas
+                /\ Sched(i) /\ UNCHANGED <<lang, unseeded, errLang, usedLang, held, lvars>>
+DrawLocked(i) == /\ pc[i] = "parsed" /\ unseeded[i] /\ ~AsWas /\ Compiled(i)
                  /\ pc' = [pc EXCEPT ![i] = "drawn"]
                  /\ rng' = rng + 1 /\ draws' = [draws EXCEPT ![i] = rng + 1]
-                 /\ Sched(i) /\ UNCHANGED <<lang, unseeded, errLang, usedLang, held>>
-End(i) == /\ pc[i] \in {"parsed", "drawn"} /\ (pc[i] = "parsed" => ~unseeded[i])
+                 /\ Sched(i) /\ UNCHANGED <<lang, unseeded, errLang, usedLang, held, lvars>>
+End(i) == /\ pc[i] \in {"parsed", "drawn"} /\ (pc[i] = "parsed" => ~unseeded[i]) /\ Compiled(i)
           /\ pc' = [pc EXCEPT ![i] = "done"]
-          /\ Sched(i) /\ UNCHANGED <<lang, unseeded, errLang, usedLang, rng, held, draws>>
+          /\ Sched(i) /\ UNCHANGED <<lang, unseeded, errLang, usedLang, rng, held, draws, lvars>>
 
-View == <<pc, lang, unseeded, errLang, usedLang, rng, held, draws>>   \* (the schedule is history, not state)
+View == <<pc, lang, unseeded, errLang, usedLang, rng, held, draws, flag, lazy, pcache, gcache, ranUnder>>   \* (the schedule is history, not state)
 
-Next == \E i \in VM : Begin(i) \/ Parse(i) \/ DrawRead(i) \/ DrawWrite(i) \/ DrawLocked(i) \/ End(i)
+Next == \E i \in VM : Begin(i) \/ Parse(i) \/ LazyPrivate(i) \/ LazyLookup(i) \/ LazyStore(i) \/ DrawRead(i) \/ DrawWrite(i) \/ DrawLocked(i) \/ End(i)
 Spec == Init /\ [][Next]_vars
 
 -----------------------------------------------------------------------------
 \* each VM's error is in its own language, whatever the others do
-Isolation == \A i \in VM : usedLang[i] \in {"none", lang[i]}
+\* ... and the code it runs was compiled under its own flags
+Isolation == \A i \in VM : usedLang[i] \in {"none", lang[i]} /\ ranUnder[i] \in {"none", flag[i]}
 \* two VMs never have conflicting unordered accesses to package-level state in flight
 NoRace == /\ \A i, j \in VM : (i # j /\ pc[i] = "drawing") => pc[j] # "drawing"
+          /\ \A i, j \in VM : (i # j /\ pc[i] = "compiling") => pc[j] # "compiling"
           /\ AsWas => \A i, j \in VM : (i # j /\ pc[i] = "begun" /\ pc[j] = "idle") => lang[i] = lang[j]
 \* no draw is lost: every unseeded VM that has drawn got its own value
 NoLostDraw == \A i, j \in VM : (i # j /\ draws[i] # 0 /\ draws[j] # 0) => draws[i] # draws[j]
